@@ -111,7 +111,7 @@ theorem topOnly_evalBoxed_all (env : Env) (hc : ∀ b, TopOnly (env.call b)) :
   · -- boxed context
     intro entries ih
     simp only [evalBoxed]
-    exact ih
+    exact topOnly_of_pres (pres_bracket_of_topOnly _ ih)
   · -- boxed invocation / function definition
     intro f bindings ihb ihf
     simp only [evalBoxed]
@@ -180,6 +180,95 @@ theorem topOnly_evalBoxed_all (env : Env) (hc : ∀ b, TopOnly (env.call b)) :
       exact hr
     rw [this]
     exact ih
+
+/-- Since a boxed context evaluates its entries in a context it pushes and pops itself (`mod.rs:293-324`),
+every boxed expression — literal expression, context, invocation, function definition, relation, decision
+table, nested in any way — leaves the scope exactly as it found it; the loop over the entries of a boxed
+context writes at most into the top context (the pushed one). -/
+theorem pres_evalBoxed_all (env : Env) (hc : ∀ b, TopOnly (env.call b)) :
+    (∀ a, Pres (evalBoxed env a)) ∧ (∀ rows, Pres (evalBoxedRows env rows)) ∧
+    (∀ bs acc, Pres (evalBoxedBindings env bs acc)) ∧ (∀ es acc, TopOnly (evalBoxedEntries env es acc)) := by
+  refine evalBoxed.mutual_induct
+    (motive_1 := fun a => Pres (evalBoxed env a))
+    (motive_2 := fun rows => Pres (evalBoxedRows env rows))
+    (motive_3 := fun bs acc => Pres (evalBoxedBindings env bs acc))
+    (motive_4 := fun es acc => TopOnly (evalBoxedEntries env es acc))
+    ?_ ?_ ?_ ?_ ?_ ?_ ?_ ?_ ?_ ?_ ?_ ?_ ?_ ?_
+  · -- boxed context
+    intro entries ih
+    simp only [evalBoxed]
+    exact pres_bracket_of_topOnly _ ih
+  · -- boxed invocation / function definition
+    intro f bindings ihb ihf
+    simp only [evalBoxed]
+    apply pres_bind ihb
+    intro params
+    apply pres_bind ihf
+    intro fv
+    split
+    · exact pres_bind (pres_bracket_of_topOnly _ (hc _)) (fun _ => pres_pure _)
+    · exact pres_pure _
+  · -- relation
+    intro rows ih
+    simp only [evalBoxed]
+    exact pres_bind ih (fun _ => pres_pure _)
+  · -- decision table
+    intro hitPolicy inputs outputs rules
+    simp only [evalBoxed]
+    exact Drg.pres_evalTable env hc _ _ _ _
+  · -- literal expression
+    intro a h1 h2 h3 h4
+    have : evalBoxed env a = evalStep env a := by
+      unfold evalBoxed
+      split
+      · exact (h1 _ rfl).elim
+      · exact (h2 _ _ rfl).elim
+      · exact (h3 _ rfl).elim
+      · exact (h4 _ _ _ _ rfl).elim
+      · rfl
+    rw [this]
+    exact pres_evalStep_of_topOnly_call env hc a
+  · -- rows
+    simp only [evalBoxedRows]
+    exact pres_pure _
+  · intro rs cells ihc ihr
+    simp only [evalBoxedRows]
+    exact pres_bind ihc (fun _ => pres_bind ihr (fun _ => pres_pure _))
+  · intro r rs hr ih
+    have : evalBoxedRows env (r :: rs) = evalBoxedRows env rs := by
+      rw [evalBoxedRows]
+      exact hr
+    rw [this]
+    exact ih
+  · -- bindings
+    intro acc
+    simp only [evalBoxedBindings]
+    exact pres_pure _
+  · intro es acc name v ihv ih
+    simp only [evalBoxedBindings]
+    exact pres_bind ihv (fun value => ih value)
+  · intro e es acc he ih
+    have : evalBoxedBindings env (e :: es) acc = evalBoxedBindings env es acc := by
+      rw [evalBoxedBindings]
+      exact he
+    rw [this]
+    exact ih
+  · -- entries
+    intro acc
+    simp only [evalBoxedEntries]
+    exact topOnly_pure _
+  · intro es acc name v ihv ih
+    simp only [evalBoxedEntries]
+    exact topOnly_bind (topOnly_of_pres ihv) (fun value => topOnly_bind (topOnly_setEntry _ _) (fun _ => ih value))
+  · intro es acc r hr ih
+    have : evalBoxedEntries env (r :: es) acc = evalBoxed env r := by
+      rw [evalBoxedEntries]
+      exact hr
+    rw [this]
+    exact topOnly_of_pres ih
+
+theorem pres_evalBoxed (env : Env) (hc : ∀ b, TopOnly (env.call b)) (a : Ast) : Pres (evalBoxed env a) :=
+  (pres_evalBoxed_all env hc).1 a
 
 theorem topOnly_evalBoxed (env : Env) (hc : ∀ b, TopOnly (env.call b)) (a : Ast) : TopOnly (evalBoxed env a) :=
   (topOnly_evalBoxed_all env hc).1 a
